@@ -26,7 +26,14 @@ from .pysym import SymInt, _lift
 
 class LoopSpec:
     def __init__(self, inv, state=(), keep=(), label=''):
-        self.inv = inv            # callable(env: dict) -> z3 Bool
+        def guarded(env, _inv=inv):
+            # an invariant names locals of the loop it was written for; if the code no longer has them (renamed, restructured)
+            # the contract does not address this shape of the code: an engine limit (=> demotion), not an exception of the code
+            try:
+                return _inv(env)
+            except (KeyError, AttributeError, TypeError, IndexError) as e:
+                raise Unsupported(f'loop invariant does not apply to this shape of the loop ({type(e).__name__}: {e})') from e
+        self.inv = guarded            # callable(env: dict) -> z3 Bool
         self.state = tuple(state)  # names of local objects with a .vf_havoc() method (abstract mutable state)
         self.keep = tuple(keep)    # assigned names that must NOT be havocked (loop-invariant temporaries)
         self.label = label
@@ -69,6 +76,8 @@ class _RT:
 
     def havoc_state(self, ordinal, env):
         for n in self.specs[ordinal].state:
+            if n not in env or not hasattr(env[n], 'vf_havoc'):
+                raise Unsupported(f'abstract loop state `{n}` not found among the locals of the function (renamed?)')
             env[n].vf_havoc()
 
     def assume_iter(self, ordinal, env, var, b, a=None):
